@@ -69,7 +69,8 @@ CHECKS = {
              "component shapes; push/recursive-call/pop pairing of the fold-optional stack; fold count declared Int! and "
              "produced as Uint64(len), null only for non-existent folds; engine and indexer read the same output sources; "
              "decision table of the context suspension methods (suspending is idempotent, un-suspending restores the saved vertex, "
-             "nothing else changes) - the vertex a suspended context is restored to is what its outputs are read from. "
+             "nothing else changes) - the vertex a suspended context is restored to is what its outputs are read from; a fold "
+             "element without a nested value contributes null, one with a value contributes it unchanged. "
              "Not decided: validity of adapter-supplied values.",
         note="trusted: Type model (C17), collection model",
         technique="static analysis: abstract interpretation of indexer helpers + pairing / footprint rules",
@@ -131,7 +132,8 @@ CHECKS = {
              "first-out (needed when the recorded adapter had several contexts in flight); no RefMut of the tracer cell is alive "
              "across a call into the wrapped adapter (a nested recording adapter call would panic on the second borrow); the "
              "two helper iterators that write AdvanceInputIterator / *IteratorExhausted are evaluated with an effect counter: the "
-             "action runs exactly at the pull that calls for it, and nothing else (no Drop impl) runs it. Not decided: equality "
+             "action runs exactly at the pull that calls for it, and nothing else (no Drop impl) runs it; no exit of a recording "
+             "closure precedes its record(..) and every inner iterator handed back is the tapped one. Not decided: equality "
              "of rows.",
         note="trusted: Iterator::inspect/map semantics; serde round-trip of the trace (C16)",
         technique="static analysis: ADT mirror comparison + writer/reader variant-set agreement over typed HIR",
@@ -167,7 +169,8 @@ CHECKS = {
              "point deserialize_T uses TryInto<T>, propagates the error and calls visit_T for both integer variants, everything "
              "else forwards to deserialize_any whose variant table is the identity; deserialize_tuple rejects a length mismatch "
              "first; undeclared (skipped) values are not decoded - deserialize_ignored_any does not reach a panicking arm of "
-             "deserialize_any. One known finding (Enum -> todo!()).",
+             "deserialize_any; the row-level MapAccess hands over every entry once, in order, key then its own value, null values "
+             "included (effect table). One known finding (Enum -> todo!()).",
         note="trusted: serde visitors, std TryFrom",
         technique="static analysis: MIR cast scan + sibling dispatch-table agreement over typed HIR",
         design_ref="DESIGN.md section 4 C18"),
@@ -270,7 +273,8 @@ CHECKS = {
              "implicit coercion x destination coercion with the context iterator abstracted to the type of its active vertices: "
              "the type named at every resolve_neighbors / resolve_coercion equals that typestate (coerce_to only after a "
              "suspending re-coercion before that very expansion); decision table of get_recurse_implicit_coercion over one schema "
-             "per documented case x recursion depth (the decision does not depend on the depth from depth 2 on).",
+             "per documented case x recursion depth (the decision does not depend on the depth from depth 2 on); Type::is_valid_value "
+             "equals its definition (C12 r2 re-evaluated), so a parameter value is of the declared type.",
         note="trusted: well-formed IR (C11); Type / collection models; uniformity of the recursion loop beyond depth 5",
         technique="static analysis: same-origin provenance of call arguments + abstract evaluation of edge-parameter construction",
         design_ref="DESIGN.md section 4 C21"),
@@ -279,7 +283,8 @@ CHECKS = {
         text="The data flow into the minimum-size argument of fold materialisation depends on every observer of the fold (outputs "
              "inside, nested fold outputs, count output, count tags used by parent filters and sibling folds); the max/min limit "
              "functions and collect_fold_elements are abstractly evaluated for every set of one or two count filters over small "
-             "values and every true fold size: early-terminated outcome equals the full-materialisation outcome; every post-filter "
+             "values and every true fold size, and with limits at the top of the integer range: early-terminated outcome equals the "
+             "full-materialisation outcome; every post-filter "
              "is applied after materialisation; the maximum path discards only after pulling exactly one element beyond the limit; "
              "the truncation decision itself is evaluated on sample IR with one observer present at a time (no truncation whenever "
              "anything observes the fold; controls show the table is not vacuous).",
